@@ -181,6 +181,22 @@ Memberless == <<
 >>
 MemberlessAt(j) == TItem("memberless", Memberless[j])
 
+\* ---- dependency name order: byte-wise order of the NAMES (not of the formatted definitions) ----------------
+\* sets of struct names with prefix pairs continued by '$' (below '('), digits, upper / lower case, '_'
+NameSets == << <<"Asset", "Asset$Info">>, <<"A", "A$", "A0", "AA", "A_", "Aa">>, <<"x", "X", "x1", "x$y", "xy", "x_y">>,
+               <<"$", "_", "a", "Z">>, <<"T", "T$", "T$$", "T$a">>, <<"ab", "a", "abc", "a$c", "aB">> >>
+NameOrderAt(j) ==
+  LET names == NameSets[1 + ((j - 1) % Len(NameSets))]
+      rev   == (j - 1) \div Len(NameSets) = 1                 \* members (and type table) in reverse order
+      ord   == IF rev THEN [i \in 1..Len(names) |-> names[Len(names) + 1 - i]] ELSE names
+      \* every named type has one member; the later ones also refer to the first
+      def(i) == <<ord[i], TypeDef(<<Member("v", "uint8")>> \o (IF i > 1 THEN <<Member("r", ord[1] \o "[]")>> ELSE <<>>))>>
+      val(i) == NObj(<< <<"v", NNum(ToString(i))>> >> \o (IF i > 1 THEN << <<"r", NArr(<<>>)>> >> ELSE <<>>))
+  IN  TItem("name_order",
+        Doc(<<NameOnlyDomainType, <<"P", TypeDef([i \in 1..Len(ord) |-> Member("m" \o ToString(i), ord[i])])>> >> \o [i \in 1..Len(ord) |-> def(i)],
+            "P", NameOnlyDomain, NObj([i \in 1..Len(ord) |-> <<"m" \o ToString(i), val(i)>>])))
+NNameOrder == 2 * Len(NameSets)
+
 \* ---- PRNG documents (C08 iii) ------------------------------------------------------------------
 RNames == <<"Order", "Asset", "person", "Leg", "Zeta">>
 \* member kind code: <<atom a>>, or <<-t>> struct t, with array suffix list
@@ -212,7 +228,7 @@ RandValue(nt, nm, kd, depth, d, r) ==
     IN  NArr([i \in 1..len |-> RandValue(nt, nm, inner, depth + 1, d, r \o <<i>>)])
   ELSE IF kd.base > 0 THEN AtomValue(kd.base, PrngNat(K("av", r), 4), r)
   ELSE RandStruct(nt, nm, 0 - kd.base, depth + 1, d, r)
-NRandDocs == IF Thorough THEN 25000 ELSE 400
+NRandDocs == IF Thorough THEN 25000 ELSE 800
 RandDocAt(j) ==
   LET nt == 1 + PrngNat(K("nt", <<j>>), 5)
       nm == [t \in 1..nt |-> 1 + PrngNat(K("nm", <<j, t>>), 6)]
